@@ -69,3 +69,13 @@ Proof.
   intros d o umask src Ho Hd Hl. unfold special_worker.
   destruct d, o; try contradiction; try discriminate Hd; try discriminate Hl; cbn; split; intros H; try discriminate H; try reflexivity.
 Qed.
+
+(* ---- the destination's parent directory is missing ---- *)
+Theorem parent_missing_refused_unless_directory : forall s, s <> SDir -> parent_missing_outcome s = Refused.
+Proof. intros [] H; try reflexivity. contradiction. Qed.
+
+(* the calls that would have to create the entry there are steps whose failure fails the run (Ops.fault_effect_of): the cell
+   is `Refused` for exactly the source kinds whose creating call cannot make the missing ancestors *)
+Theorem parent_missing_is_a_failed_step : forall k,
+  fault_effect_of (ACreateTrunc k) = FxError /\ fault_effect_of (ASymlink k []) = FxError /\ fault_effect_of (AMknod k) = FxError.
+Proof. intros k. repeat split; reflexivity. Qed.
